@@ -140,10 +140,22 @@ func (o *rx) Evaluate(tx plugintypes.TransactionState, value string) bool {
 	// The \n guard protects against multi-line inputs where (?m)$ matches
 	// before a newline (e.g. "Upload\nmore" would satisfy (?sm)^Upload$).
 	if o.exactMatch != "" && !strings.ContainsRune(value, '\n') {
+		var matched bool
 		if o.exactMatchCI {
-			return strings.EqualFold(value, o.exactMatch)
+			matched = strings.EqualFold(value, o.exactMatch)
+		} else {
+			matched = value == o.exactMatch
 		}
-		return value == o.exactMatch
+		if matched && tx.Capturing() {
+			// The whole value is the match. extractExactMatch only unwraps capture
+			// groups that enclose the entire ^literal$ expression, so every group of
+			// the pattern captures the whole value as well. Same TX.0-TX.8 limit as
+			// the regex path below.
+			for i := 0; i <= o.re.NumSubexp() && i < 9; i++ {
+				tx.CaptureField(i, value)
+			}
+		}
+		return matched
 	}
 
 	if tx.Capturing() {
